@@ -281,6 +281,16 @@ def feasible_policies(inst, rng, cap):
     return [[rng.choice(inst.feasible(s)) for s in range(inst.n)] for _ in range(cap)]
 
 
+def arg_forms(x, floats=True):
+    """the forms in which a caller may pass an integer-valued vector"""
+    d = {"list": [int(t) for t in x], "tuple": tuple(int(t) for t in x), "int32": np.array(x, dtype=np.int32),
+         "int64": np.array(x, dtype=np.int64)}
+    if floats:
+        d["float32"] = np.array(x, dtype=np.float32)
+        d["float64"] = np.array(x, dtype=np.float64)
+    return d
+
+
 def dyadic_v(rng, n, scale_bits=0):
     e = rng.choice([0, 0, 1, 3, 6])
     return [Fraction(rng.randrange(-64, 65), 2 ** e) * 2 ** scale_bits for _ in range(n)]
@@ -393,10 +403,6 @@ def run(ctx):
                             ctx.fail("bellman_value", "bellman_operator/compute_greedy differ from the exact max / a maximiser",
                                      dict(inp, v=v), {"Tv": Tv, "sigma": sg}, {"Tv": oTv, "argmax sets": oarg})
                         tests_close.append(tup(qlist(v), qlist([frac(x) for x in Tv]), natlist(sg)))
-                if tests_exact:
-                    bell_exact.append(tup(form.coq, "[" + "; ".join(tests_exact) + "]")); meta_exact.append(inp)
-                if tests_close:
-                    bell_close.append(tup(form.coq, "[" + "; ".join(tests_close) + "]")); meta_close.append(inp)
 
                 # huge / very negative dyadic v through the float instance (bit-exact: every product and partial sum is exact)
                 if inst.dyadic and kind in ("product", "sa_shuffled", "sa_sparse"):
@@ -413,6 +419,59 @@ def run(ctx):
                     fcoq = float_term(form)
                     bell_float.append(tup(fcoq, flist(vbig), flist(Tv), natlist(sg))); meta_float.append(dict(inp, v=vbig))
                     ctx.count("bellman:huge v 2^%d" % e)
+
+                # ---- argument FORMS: integer-valued v as list / tuple / int32 / int64 / float32 / float64, with and without
+                # supplied output arrays: every result must be the float64 result (float64 dtype, same values)
+                vint = [rng.randrange(-6, 7) for _ in range(inst.n)]
+                vfr = [Fraction(x) for x in vint]
+                refT = ddp.bellman_operator(np.array(vint, dtype=float)).copy()
+                refg = ddp.compute_greedy(np.array(vint, dtype=float)).copy()
+                oTv, oarg = o_bellman(inst, vfr)
+                if not all(close(float(x), y) for x, y in zip(refT, oTv)) or not sigma_is_near_greedy(inst, vfr, [int(x) for x in refg]):
+                    ctx.fail("bellman_value", "bellman_operator/compute_greedy wrong on an integer vector", dict(inp, v=vint), {"Tv": refT, "sigma": refg}, {"Tv": oTv})
+                for fname, xv in arg_forms(vint).items():
+                    for supplied in (False, True):
+                        if supplied:
+                            Tv = np.empty(inst.n); sg = np.empty(inst.n, dtype=int)
+                            ddp.bellman_operator(xv, Tv=Tv, sigma=sg)
+                        else:
+                            Tv = ddp.bellman_operator(xv); sg = ddp.compute_greedy(xv)
+                        if np.asarray(Tv).dtype != np.float64 or not np.array_equal(Tv, refT) or not np.array_equal(sg, refg):
+                            ctx.fail("argument_form", "bellman_operator/compute_greedy depend on the form (type/dtype) in which v is passed",
+                                     dict(inp, v=vint, v_form=fname, supplied_out_arrays=supplied),
+                                     {"Tv": Tv, "dtype": str(np.asarray(Tv).dtype), "sigma": sg}, {"Tv": refT, "sigma": refg})
+                        elif not supplied:
+                            t_ = tup(qlist(vfr), qlist([frac(float(x)) for x in Tv]), natlist([int(x) for x in sg]))
+                            (tests_exact if inst.dyadic else tests_close).append(t_)
+                    ctx.count("argument form v:" + fname)
+                # sigma forms for RQ_sigma / T_sigma / evaluate_policy / controlled_mc, v_term forms for backward_induction
+                sgi = [rng.choice(inst.feasible(s_)) for s_ in range(inst.n)]
+                rR, rQ = ddp.RQ_sigma(np.array(sgi)); rQ = dense(rQ)
+                rT = ddp.T_sigma(np.array(sgi))(np.array(vint, dtype=float))
+                rE = ddp.evaluate_policy(np.array(sgi)) if inst.beta < 1 else None
+                rV, rS = backward_induction(ddp, 2, np.array(vint, dtype=float))
+                for fname, xs in arg_forms(sgi, floats=False).items():
+                    xv = arg_forms(vint)[rng.choice(["list", "tuple", "int32", "int64", "float32"])]
+                    R_, Q_ = ddp.RQ_sigma(xs)
+                    okf = np.array_equal(R_, rR) and np.array_equal(dense(Q_), rQ) and np.array_equal(dense(ddp.controlled_mc(xs).P), rQ)
+                    T_ = ddp.T_sigma(xs)(xv)
+                    okf = okf and np.asarray(T_).dtype == np.float64 and np.array_equal(T_, rT)
+                    if rE is not None:
+                        okf = okf and np.array_equal(ddp.evaluate_policy(xs), rE)
+                    if not okf:
+                        ctx.fail("argument_form", "RQ_sigma/controlled_mc/T_sigma/evaluate_policy depend on the form in which sigma / v are passed",
+                                 dict(inp, sigma=sgi, sigma_form=fname, v=vint), None, None)
+                    ctx.count("argument form sigma:" + fname)
+                for fname, xv in arg_forms(vint).items():
+                    V_, S_ = backward_induction(ddp, 2, xv)
+                    if V_.dtype != np.float64 or not np.array_equal(V_, rV) or not np.array_equal(S_, rS):
+                        ctx.fail("argument_form", "backward_induction depends on the form in which v_term is passed",
+                                 dict(inp, v_term=vint, v_form=fname), {"vs": V_, "sigmas": S_}, {"vs": rV, "sigmas": rS})
+
+                if tests_exact:
+                    bell_exact.append(tup(form.coq, "[" + "; ".join(tests_exact) + "]")); meta_exact.append(inp)
+                if tests_close:
+                    bell_close.append(tup(form.coq, "[" + "; ".join(tests_close) + "]")); meta_close.append(inp)
 
                 # ---- call SEQUENCES on one DiscreteDP object: every returned array is kept and checked only at the END
                 # (a result must not be overwritten by a later call; results of different calls must not alias)
